@@ -100,13 +100,37 @@ func runC13(c *Ctx) {
 		}
 	}
 	// larger sets; N*M >= 2^32 from N = 5472 on (BIP158 parameters)
-	big := []int{1000, 6000}
+	big := []int{1100, 5472, 5473}
 	if c.Thorough() {
-		big = []int{1000, 5471, 5472, 11000, 65536}
+		big = []int{1100, 5471, 5472, 5473, 8195, 11000, 65537}
 	}
 	for _, n := range big {
 		items := gcsItems(c, n, 0x22)
-		gcsCall(c, keys[2], 19, 784931, items, gcsQueries(c, items)[:6])
+		qs := gcsQueries(c, items)[:6]
+		// large query sets (the any-of strategies sort / index them): members hidden among non-members, one member
+		// many times over, non-members only
+		mixed := gcsItems(c, 150, 0xCC)
+		for k := 0; k < 20; k++ {
+			mixed[r.Intn(len(mixed))] = items[r.Intn(n)]
+		}
+		same := make([][]byte, 130)
+		for k := range same {
+			same[k] = items[n/3]
+		}
+		qs = append(qs, mixed, same, gcsItems(c, 200, 0xCB), append(gcsItems(c, 127, 0xCA), items[n-1]))
+		if n <= 1100 {
+			qs = append(qs, items) // EVERY member asked individually (and all of them at once)
+		}
+		gcsCall(c, keys[2], 19, 784931, items, qs)
+	}
+	// N*M just above a power of 256 for small parameters as well (2^8, 2^16, 2^24), with large query sets
+	for _, pm := range [][3]int{{4, 16, 17}, {8, 256, 257}, {12, 4096, 4097}, {8, 300, 219}, {16, 65536, 257}} {
+		items := gcsItems(c, pm[2], 0x23)
+		mixed := gcsItems(c, 140, 0xC9)
+		for k := 0; k < 15; k++ {
+			mixed[r.Intn(len(mixed))] = items[r.Intn(len(items))]
+		}
+		gcsCall(c, keys[1], pm[0], uint64(pm[1]), items, [][][]byte{mixed, items, gcsItems(c, 129, 0xC8)})
 	}
 	// planner: non-members whose reduced value equals a member's modulo 2^32 but not exactly
 	{
@@ -153,9 +177,9 @@ func runC14(c *Ctx) {
 		}
 	}
 	// both 32-bit halves of the 128-bit product: N*M >= 2^32
-	ns := []int{5472, 6000}
+	ns := []int{5472, 8195} // 8195: large, and not a multiple of 2, 4 or 8 (work split between several workers leaves a remainder)
 	if c.Thorough() {
-		ns = []int{5471, 5472, 6000, 20000, 70000}
+		ns = []int{5471, 5472, 6000, 8195, 20001, 70003}
 	}
 	for _, n := range ns {
 		items := gcsItems(c, n, 0x66)
@@ -192,7 +216,9 @@ func runC14(c *Ctx) {
 	for k := 0; k < c.Pick(150, 2000); k++ {
 		var prog []interface{}
 		for s := 0; s < 1+r.Intn(6); s++ {
-			switch r.Intn(6) {
+			switch r.Intn(7) {
+			case 6:
+				prog = append(prog, map[string]interface{}{"k": "Build"})
 			case 0:
 				prog = append(prog, map[string]interface{}{"k": "SetP", "v": []int{1, 19, 32, 33, 200}[r.Intn(5)]})
 			case 1:
